@@ -37,6 +37,18 @@ CHECKS = {
  "C01": ("runtime monitor: attacker simulator (XSW/strip/resign/fuzz transformers over harness-signed messages) + signed-record membership oracle",
          "exploration: the harness is IdP and attacker; thousands of attack documents per run are built from genuine signed responses by 30 wrapping/stripping/relocation/resigning/ID-collision transformers, a subtree fuzzer and a byte mutator, validated by the real library, and every accepted result is compared field-for-field with the records of what a trusted key actually signed",
          "attack grammar finite; canonicaliser shared with the verifier", "4/C01"),
+ "C02": ("runtime monitor: certificate-trust reference oracle with an injected spy clock and spy certificate store",
+         "exploration: four inbound kinds x signer relation to the store (member i of n, untrusted, foreign key under trusted certificate, same key under another certificate, KeyInfo absent) x store sizes 0-3 x clock at +-1s around both ends of the signing certificate's window x tamper; the oracle recomputes 'honoured' from the generator's ground truth and requires rejection whenever a present signature does not verify",
+         "certificate-window equality instants not probed; wall clock decades away", "4/C02"),
+ "C03": ("runtime monitor: reference profile validator over fault-injected, IdP-signed records with typed-error membership oracle",
+         "exploration: 33 fault kinds injected (1-3 at a time, any assertion position, 1-4 assertions) into otherwise conforming records that are then signed by the IdP (or sent to a skip-signature SP); accept iff the reference validator finds no violated check, otherwise the typed error must name a violated check; plus direct Validate calls",
+         "check order not promised; several SubjectConfirmations: implication only (finding K4)", "4/C03"),
+ "C04": ("runtime monitor: flag-vs-ground-truth oracle over the C01 and C10 presentation lists with signature-checking on/off twins",
+         "exploration: every SignatureValidated indicator returned for attack documents, genuine documents and logout messages is checked against what the generator really signed with a store key; skip twins must report every indicator false; an unverified Response must carry only individually flagged assertions; the summary flag must mirror the Response flag",
+         "same simulator assumptions as C01/C10", "4/C04"),
+ "C10": ("runtime monitor: reference logout validator + signing-state ground truth oracle, kind-confusion workload",
+         "exploration: LogoutRequest/LogoutResponse records with injected faults in nine signing states (incl. wrapped, relocated, tampered), raw/DEFLATE, skip on/off, issuer configured or not; accept/flag/typed-error outcomes must match the reference; documents of other kinds are offered to every validator and must never be accepted",
+         "relocated signature: implication only", "4/C10"),
 }
 
 NOT_BUILT = "monitor not built yet in this session (planned in DESIGN.md section 4)"
